@@ -52,7 +52,9 @@ TraceNext ==
        \/ (T.timing = "wall" /\ SubDeadline)
        \/ (T.ctx # "live" /\ CtxPoint /\ CtxEnds(T.ctx))
        \/ \E i \in Items :
-            \/ ReturnCtx(i) \/ NextAttempt(i) \/ PickPeer(i) \/ PickPeerCtx(i) \/ Interrupt(i) \/ Timeout(i)
+            \/ ReturnCtx(i) \/ NextAttempt(i) \/ PickPeer(i) \/ PickPeerCtx(i) \/ Interrupt(i)
+            \/ (Timeout(i) /\ (ICtx # "live" \/ T.ato))    \* an attempt of its own times out only where the
+                                                            \* driver lowered the getter's one-minute floor
             \/ VerifyOK(i) \/ VerifyFail(i) \/ Classify(i)
             \/ /\ Len(hist[i]) < Len(T.items[i])
                /\ \E dec \in {"good", "bad", "bad2", "nil", "same", "zero", "none"} :
